@@ -8,6 +8,7 @@
    suffices for that member (C10_one_round); how long a dead instance keeps a fresh heart-beat is
    heartbeatInterval + heartbeatToleranceDuration by the clock (checked on the real code). *)
 From Verif Require Import Base.Prelude Model.Chunk Proofs.ChunkProofs Model.Membership Proofs.MembershipProofs.
+From Verif Require Model.StatefulSet Proofs.StatefulSetProofs.
 
 (* One round is enough: from every reachable state, a member that sees itself alive holds, after its round, exactly
    the view of that round (the registered instances with a document and a fresh heart-beat, in join order) and the
@@ -119,6 +120,19 @@ Proof.
   - intros ops name join fail Hf. exact (registered_is_numbered ops name join fail Hf).
 Qed.
 Print Assumptions C10_follower_readmitted.
+
+(* StatefulSet membership: the member number is the ordinal at the end of the pod's host name plus one, within the
+   configured group size, or the start-up terminates; pods with distinct ordinals get distinct numbers of one group size *)
+Theorem C10_statefulset : forall h1 h2 total m1 m2 t1 t2,
+  StatefulSet.sts_member h1 total = Some (m1, t1) -> StatefulSet.sts_member h2 total = Some (m2, t2) ->
+  (exists o, StatefulSet.pod_ordinal h1 = Some o /\ m1 = (o + 1)%Z /\ t1 = total /\ (m1 <= total)%Z) /\
+  (StatefulSet.pod_ordinal h1 <> StatefulSet.pod_ordinal h2 -> m1 <> m2 /\ t1 = t2).
+Proof.
+  intros h1 h2 total m1 m2 t1 t2 H1 H2. split.
+  - exact (StatefulSetProofs.sts_member_spec _ _ _ _ H1).
+  - exact (StatefulSetProofs.sts_member_injective _ _ _ _ _ _ _ H1 H2).
+Qed.
+Print Assumptions C10_statefulset.
 
 (* non-vacuity: three instances join, the second dies silently, the third's document expires; rounds in any order *)
 Example C10_example_outputs :
